@@ -2,6 +2,7 @@ package verifmodel
 
 import (
 	"math"
+	"strconv"
 	"strings"
 )
 
@@ -163,11 +164,11 @@ func init() {
 			if cur, ok := o.H[a[2]]; ok {
 				v, ok = parseInt(cur)
 				if !ok {
-					if LaxInt(cur) {
-						m.Unspec++
-						return Any("field value is an integer for Go but not for Redis")
+					if !LaxInt(cur) {
+						return Err("ERR hash value is not an integer")
 					}
-					return Err("ERR hash value is not an integer")
+					m.Unspec++
+					v, _ = strconv.ParseInt(cur, 10, 64)
 				}
 			}
 		}
